@@ -84,7 +84,8 @@ Ev(c, s, e) ==
     [] e.k = "want" ->
          \* a completion's unblock chose e.for (delegate attempt on its behalf is about to be made):
          \* it must be the next of the callers still queued, in the order the configuration promises
-         IF e.by = e.for \/ c.kind # "queue" THEN s
+         \* (expect = "any": callers started at once in real time - their arrival order is the scheduler's, nothing to judge)
+         IF e.by = e.for \/ c.kind # "queue" \/ c.expect = "any" THEN s
          ELSE LET \* still waiting: call open and no token already on its way to it from an earlier hand-off
                   waiting == SelectSeq(s.order, LAMBDA q : s.call[q] = "open" /\ s.transit[q] = 0)
                   want == IF Len(waiting) = 0 THEN "" ELSE IF c.expect = "fifo" THEN waiting[1] ELSE waiting[Len(waiting)]
@@ -103,7 +104,7 @@ Ev(c, s, e) ==
                   s1 == [s EXCEPT !.call[e.p] = "granted", !.since[e.p] = -1, !.tok[e.p] = 1]
               IN IF e.nil THEN Fail(s, "conserve", "ok=true with a nil listener")
                  ELSE IF Held(c, s) >= c.limit THEN Fail(s1, "gate", "granted while the limit of tokens was already held")
-                 ELSE IF c.kind = "queue" /\ InSeq(e.p, waiting) /\ want # e.p
+                 ELSE IF c.kind = "queue" /\ c.expect # "any" /\ InSeq(e.p, waiting) /\ want # e.p
                       THEN Fail(s1, "order", "capacity went to a caller that is not next in the configured order")
                  ELSE s1
          ELSE IF e.ok
@@ -115,7 +116,7 @@ Ev(c, s, e) ==
          ELSE IF ~e.nil THEN Fail(s, "conserve", "ok=false with a non-nil listener")
               ELSE IF s.tok[e.p] # 0 THEN Fail(s, "conserve", "refused call still holds a token")
               ELSE IF c.allserved THEN Fail([s EXCEPT !.call[e.p] = "refused"], "starved", "a caller within limit + backlog was refused although every holder released in time")
-              ELSE IF ~Justified(c, s, e.p, e.t) THEN Fail([s EXCEPT !.call[e.p] = "refused"], "early", "refused without cancellation, deadline, timeout or full backlog")
+              ELSE IF ~Justified(c, s, e.p, e.t) THEN Fail([s EXCEPT !.call[e.p] = "refused", !.since[e.p] = -1], "early", "refused without cancellation, deadline, timeout or full backlog")
               ELSE IF c.kind = "queue" /\ s.since[e.p] < 0 /\ ~s.cancelled[e.p] /\ e.t # s.now
                    THEN Fail([s EXCEPT !.call[e.p] = "refused"], "backlog", "refusal at a full backlog took virtual time")
               ELSE [s EXCEPT !.call[e.p] = "refused", !.since[e.p] = -1]
@@ -196,7 +197,13 @@ Step ==
               s2 == Evs(cfg, s1, e.evs, 1)
               s3 == AfterObs(cfg, s2, e.obs)
               s4 == [s3 EXCEPT !.kids = e.obs.kids]
-          IN IF s3.err # ""
+          IN IF s3.err # "" /\ s3.class = "early"
+             THEN \* an unjustified refusal leaves the book-keeping intact (the caller is out, holding nothing): report it and go
+                  \* on, so that what the early return did to the other callers is judged as well
+                  /\ PrintReject(e, s3.class, s3.err, "", s3) /\ UNCHANGED <<ok, cfg>>
+                  /\ st' = [s4 EXCEPT !.err = "", !.class = ""]
+                  /\ \A r \in Soft(cfg, s3, e.obs) : PrintReject(e, r[1], "stable state", r[2], s3)
+             ELSE IF s3.err # ""
              THEN /\ PrintReject(e, s3.class, s3.err, "", s3) /\ ok' = FALSE /\ UNCHANGED <<cfg, st>>
              ELSE /\ st' = s4 /\ UNCHANGED <<ok, cfg>>
                   /\ \A r \in Soft(cfg, s3, e.obs) : PrintReject(e, r[1], "stable state", r[2], s3)
